@@ -2,7 +2,7 @@ package hopserver
 
 // Verification driver for C11 at the session layer (added with `go test -overlay`, verif tag): an AUTHENTICATED and
 // AUTHORIZED peer opens tubes in orders and of kinds no regular client produces.  The sequences (tube type x
-// reliable/unreliable x what the peer does with the tube) are enumerated by TLC from HopHostile.tla; each runs
+// reliable/unreliable x what the peer does with the tube) are enumerated by TLC from HopSession.tla (with the phase the model's accept loop reaches); each runs
 // against a real session's start() loop on a real HopServer over an in-memory muxer pair.  A panic in any session
 // goroutine kills this test binary (reported with the sequence in flight); after every sequence a fresh
 // connection must still be admitted by the same server (nothing the hostile session did wedged it).
@@ -56,8 +56,11 @@ func TestVerifHostileTubeOpens(t *testing.T) {
 	if err != nil {
 		t.Fatal(err)
 	}
-	var seqs [][]vhOpen
-	if err := json.Unmarshal(raw, &seqs); err != nil {
+	var behs []struct {
+		Seq   []vhOpen `json:"seq"`
+		Phase string   `json:"phase"`
+	}
+	if err := json.Unmarshal(raw, &behs); err != nil {
 		t.Fatal(err)
 	}
 	fo, err := os.Create(out)
@@ -152,7 +155,7 @@ func TestVerifHostileTubeOpens(t *testing.T) {
 		rng.Read(b)
 		return b
 	}
-	runSeq := func(i int, seq []vhOpen) {
+	runSeq := func(i int, seq []vhOpen, phase string) {
 		byGrant := i%2 == 1
 		emit(map[string]any{"ev": "opens", "i": i, "seq": seq, "grant": byGrant})
 		vs, ok := connect(byGrant)
@@ -193,18 +196,28 @@ func TestVerifHostileTubeOpens(t *testing.T) {
 		}
 		// fence: an unknown reliable tube is closed by the session loop once it gets there (or the session is gone)
 		// (calls on a tube whose request is never answered do not return - C16's subject - so the wait is bounded here)
+		fence := "na"
 		if f, err := vs.cmux.CreateReliableTube(tubes.TubeType(211)); err == nil {
-			fd := make(chan struct{})
-			go func() { f.Read(make([]byte, 1)); close(fd) }()
+			fd := make(chan error, 1)
+			go func() { _, err := f.Read(make([]byte, 1)); fd <- err }()
+			wait := 300 * time.Millisecond
+			if phase == "loop" {
+				wait = 5 * time.Second // the model expects the loop to close the fence: give a loaded machine time
+			}
 			select {
-			case <-fd:
-			case <-time.After(300 * time.Millisecond):
+			case err := <-fd:
+				fence = "error"
+				if err == io.EOF {
+					fence = "eof"
+				}
+			case <-time.After(wait):
+				fence = "timeout"
 			}
 		}
 		// the server must still admit a regular connection
 		p, alive := connect(false)
 		go func() { p.cmux.Stop(); p.smux.Stop() }()
-		emit(map[string]any{"ev": "session", "i": i, "admitted": "yes", "alive": map[bool]string{true: "yes", false: "no"}[alive]})
+		emit(map[string]any{"ev": "session", "i": i, "admitted": "yes", "fence": fence, "alive": map[bool]string{true: "yes", false: "no"}[alive]})
 		go func() {
 			vs.cmux.Stop()
 			vs.smux.Stop()
@@ -212,16 +225,16 @@ func TestVerifHostileTubeOpens(t *testing.T) {
 	}
 	var wg sync.WaitGroup
 	sem := make(chan struct{}, 12)
-	for i, seq := range seqs {
+	for i, b := range behs {
 		wg.Add(1)
 		sem <- struct{}{}
-		go func(i int, seq []vhOpen) {
+		go func(i int, seq []vhOpen, phase string) {
 			defer wg.Done()
 			defer func() { <-sem }()
-			runSeq(i, seq)
-		}(i, seq)
+			runSeq(i, seq, phase)
+		}(i, b.Seq, b.Phase)
 	}
 	wg.Wait()
-	emit(map[string]any{"ev": "summary", "sequences": len(seqs)})
+	emit(map[string]any{"ev": "summary", "sequences": len(behs)})
 	_ = fmt.Sprint
 }
